@@ -468,6 +468,62 @@ theorem c01_n_kept_under_selection (arg : Option ℕ) (nRaw nSel nSel' : ℕ) :
   simp only [trialCounts]
   omega
 
+/-! ### Data fields depending on global fit parameters: the cache is transparent -/
+
+theorem C01.eq_of_zip_all_eq : ∀ (p q : List ℝ), p.length = q.length →
+    (∀ x ∈ List.zip p q, x.1 = x.2) → p = q
+  | [], [], _, _ => rfl
+  | [], _ :: _, h, _ => by simp at h
+  | _ :: _, [], h, _ => by simp at h
+  | a :: p, b :: q, h, hall => by
+    have hab : a = b := hall (a, b) (by simp)
+    have := C01.eq_of_zip_all_eq p q (by simpa using h) (fun x hx => hall x (by simp [hx]))
+    rw [hab, this]
+
+/-- **The field content always belongs to the current parameter values**: whatever values the field
+was last calculated for, after `fieldStep` the remembered values are the current ones — a step that
+changes only *one* of several parameters recalculates, too — and the field is kept only when
+nothing changed. -/
+theorem c01_field_cache_transparent (st : Option (List ℝ)) (p : List ℝ)
+    (hlen : ∀ q, st = some q → q.length = p.length) :
+    (fieldStep st p).1 = some p ∧
+    ((fieldStep st p).2 = false → st = some p) := by
+  cases st with
+  | none => simp [fieldStep]
+  | some q =>
+    have hl := hlen q rfl
+    simp only [fieldStep]
+    by_cases hany : (List.zip p q).any (fun x => decide (x.1 < x.2) || decide (x.2 < x.1)) = true
+    · rw [if_pos hany]; simp
+    · have hall : ∀ x ∈ List.zip p q, x.1 = x.2 := by
+        intro x hx
+        by_contra hne
+        apply hany
+        apply List.any_eq_true.mpr
+        refine ⟨x, hx, ?_⟩
+        rcases lt_or_gt_of_ne hne with h | h
+        · simp [h]
+        · simp [h]
+      have hpq : p = q := C01.eq_of_zip_all_eq p q hl.symm hall
+      rw [if_neg hany, hpq]
+      simp
+
+/-- … along every sequence of evaluations of a trial (induction): the content used by the `i`-th
+evaluation belongs to the `i`-th parameter values. -/
+theorem c01_field_run_current (ps : List (List ℝ)) (n : ℕ) (hn : ∀ p ∈ ps, p.length = n)
+    (st : Option (List ℝ)) (hst : ∀ q, st = some q → q.length = n) :
+    (fieldRun st ps).map (fun r => r.1) = ps.map some := by
+  induction ps generalizing st with
+  | nil => rfl
+  | cons p rest ih =>
+    have hp : p.length = n := hn p (by simp)
+    have h1 := (c01_field_cache_transparent st p (fun q hq => by rw [hst q hq, hp])).1
+    simp only [fieldRun, List.map_cons, h1]
+    congr 1
+    exact ih (fun q hq => hn q (by simp [hq])) (some p) (fun q hq => by
+      have : q = p := by simpa using hq.symm
+      rw [this, hp])
+
 /-! ### Every composition: the datatype `RExpr` -/
 
 /-- **Compositions evaluate event-wise.**  Whenever the composed object returns an array at all
@@ -596,3 +652,7 @@ example : (RExpr.prod (.prod (.leaf [2, 3]) (.leaf [1, 1])) (.sob 1 [4, 1] [2, 0
 -- and one that does not (shape mismatch)
 example : (RExpr.prod (.leaf [2, 3]) (.leaf [1]) : RExpr ℝ).eval = none := by
   simp [RExpr.eval, ratioProductChecked]
+-- single-parameter steps of a two-parameter field: recalculated each time, kept only on an exact repeat
+example : (fieldRun none [[5 / 2, 5 / 2], [5 / 2, 5], [5, 5], [5, 5]] : List (Option (List ℝ) × Bool)).map (·.2)
+    = [true, true, true, false] := by
+  norm_num [fieldRun, fieldStep]
